@@ -14,6 +14,16 @@ application, connection, thread, node or flavour active in the same process in b
 objects the caller passed in (lists, arrays, instructions) or got back, mutated or reused afterwards; module-level or
 class-level state (counters, registries, caches, default arguments) that survives from one use to the next.
 """}
+FOCUS["config"] = """
+**This round concentrates on non-default configurations and on two features used together.** The default path of every feature
+has been checked many times, also over long histories. Look at what changes when something is switched on or combined:
+logging and line tracking (LogConfig, log level DEBUG, instruction loggers, comm logs), `return_arrays=False`, the hardware
+setting (`set_is_using_hardware`), NV / REIDS compilers with and without matching flavours and hardware configs, `debug=True`
+transpilation, non-blocking flush / commit with callbacks, `compile()` + `commit_subroutine` mixed with `flush()`, several
+connections / applications / nodes in one process, explicit loop registers, sequential / post-routine / min-fidelity / context
+forms of requests, templates inside loops and conditionals, timeouts of 0, ids and sizes at their maxima (app id 65535, socket id
+255, 16 registers in use, 255 array entries ...). A combination counts only if each part lies inside the property's domain.
+"""
 focus = FOCUS[os.environ.get("HUNT_FOCUS", "")]
 props = [json.loads(l) for l in open('/verif/properties.jsonl')]
 for p in props:
